@@ -1763,6 +1763,7 @@ class Models:
                 # items after the numeric element of a normal form: the non-numeric remainder
                 rest = TermV(obj.mag / obj.nu, dict(obj.dims), items=None, normalized=True, origin=("split", id(obj)))
                 rest.as_items = True
+                rest.part_of = obj      # (dimensionless exactly when the term it is the non-numeric part of is)
                 rest.num_choice = 0
                 rest.pure = True
                 can_zero, must_zero = self.dims_zero(obj)
@@ -1949,18 +1950,17 @@ class Models:
         can_zero, must_zero = self.dims_zero(key)
         if must_zero:
             I.raise_("KeyError", node)
-        mk = (g.name, st.norm(key.mag).key(), tuple(sorted((st.tfind(k_), e_) for k_, e_ in self.norm_dims(key.dims).items()
-                                                             if e_ != (0, 0))))
-        memo = st.lookup_memo
-        if mk[1:] in st.never_found:
+        dk_ = tuple(sorted((st.tfind(k_), e_) for k_, e_ in self.norm_dims(key.dims).items() if e_ != (0, 0)))
+        if st.rf_table_get("never", (key.mag,), dk_):
             st.known_absent.add((g.name, st.norm(key.mag).key()))
             I.raise_("KeyError", node)
-        if st.oracle.sticky is not None and mk in memo:
-            c = memo[mk]        # the same look-up in the same state finds the same
+        c = st.rf_table_get("lookup:" + g.name, (key.mag,), dk_) if st.oracle.sticky is not None else None
+        if c is not None:
+            # the same look-up in the same state finds the same
             st.oracle.trace.append(f"unit_from_term@{getattr(node, 'lineno', '?')}={'found' if c else 'KeyError'} (as before)")
         else:
             c = I.choose(2, f"unit_from_term@{getattr(node, 'lineno', '?')}", ["KeyError", "found"], sticky=False)
-            memo[mk] = c
+            st.rf_table_set("lookup:" + g.name, (key.mag,), dk_, c)
         if c == 0:
             st.known_absent.add((g.name, st.norm(key.mag).key()))
             I.raise_("KeyError", node)
@@ -1995,10 +1995,11 @@ class Models:
                 self.dim_types[dk] = tid
                 st.type_dims[tid] = dict(nz)
         # the directory answers the same look-up with the same unit
-        fk = (st.tfind(tid) if tid in st.tparent else tid, st.norm(t.mag).key())
-        uid = st.found_units.get(fk)
+        tk = st.tfind(tid) if tid in st.tparent else tid
+        uid = st.rf_table_get("unit", (t.mag,), tk)
         if uid is None:
-            uid = st.found_units[fk] = st.new_unit(tid, mu=t.mag)
+            uid = st.new_unit(tid, mu=t.mag)
+            st.rf_table_set("unit", (t.mag,), tk, uid)
         return UnitV(uid)
 
     def norm_dims(self, dims):
